@@ -1,6 +1,6 @@
 #!/bin/sh
-# Builds the verification framework from files on disk only (offline): Coq development (full .vo),
-# extracted OCaml model runner, Rust harness against /repo with the hook guard on.
+# Builds the verification framework from files on disk only (offline): Rust harness against /repo with the
+# hook guard on, regenerated Coq tables (translators), Coq development (full .vo), extracted OCaml model runner.
 set -e
 cd "$(dirname "$0")"
 export CARGO_NET_OFFLINE=true
@@ -8,6 +8,9 @@ python3 - <<'PY'
 import sys, os
 sys.path.insert(0, os.path.join(os.getcwd(), "tools"))
 import vlib
+ok, out = vlib.build_harness()
+if not ok:
+    print(out[-3000:]); sys.exit("harness build failed")
 if os.path.exists(os.path.join(vlib.VERIF, "tools", "translate.py")):
     import translate
     translate.regenerate_all()
@@ -23,8 +26,5 @@ if not ok:
 ok, out = vlib.build_model()
 if not ok:
     print(out[-3000:]); sys.exit("model extraction/build failed")
-ok, out = vlib.build_harness()
-if not ok:
-    print(out[-3000:]); sys.exit("harness build failed")
 print("setup ok")
 PY
